@@ -21,6 +21,10 @@ pub enum Step {
     },
     /// one simulated process start (`simnode`)
     Start { session: Session },
+    /// one simulated process start while *another running instance* holds the index writer lock of
+    /// the data directory for `hold_ms` milliseconds of real time (taken before this start begins;
+    /// if the directory holds no index that opens there is nothing to hold and this is a plain start)
+    Contended { hold_ms: u64, session: Session },
     /// the real `any` program; `query` is the text, `exact`/`describe` the flags; `env` may carry
     /// ANYTHING_VERIF_KILL_AT / ANYTHING_VERIF_FAIL_AT (the hook module's built-in injector)
     Cli {
@@ -132,6 +136,14 @@ pub struct StepOut {
 pub struct Trace {
     pub steps: Vec<StepOut>,
     pub harness_errors: Vec<String>,
+    /// steps whose child ran into the watchdog although the harness schedules nothing in it (a run of
+    /// the real program, or a session of plain opens and questions without injected faults)
+    #[serde(default)]
+    pub hang_steps: Vec<usize>,
+    /// the same steps hung in two executions of the history: that is the code under test, and a
+    /// verdict (`<property>.hangs`), not a harness problem
+    #[serde(default)]
+    pub hangs_confirmed: bool,
 }
 
 #[derive(Serialize, Deserialize, Clone, Debug, PartialEq, Eq)]
@@ -166,6 +178,12 @@ pub struct Ctx {
     /// a third build of the same code and data under another version number, with another tokenizer
     /// configuration (C15 "written by another version", for real)
     pub ver: Option<Box<Alt>>,
+    /// a fourth build: same code, version and file contents, the first fact asset renamed so that it
+    /// is indexed last (C15 "written for other data": the same facts in another order are other data
+    /// to every query that ties across assets)
+    pub ren: Option<Box<Alt>>,
+    /// number of tie phrases in `qprime` (between the own words and the fake phrases)
+    pub qprime_ties: usize,
     /// the ptrace injector (strace) is usable in this sandbox
     pub caps_strace: bool,
 }
@@ -179,13 +197,14 @@ pub struct Alt {
 
 impl Ctx {
     pub fn session(&self, cpus: usize, faults: Vec<Fault>, ops: Vec<Op>) -> Session {
-        Session { cpus, faults, ops, expected_docs: self.expected_docs, repo: self.repo.clone(), alt: false, ver: false, env: vec![], rand: 0 }
+        Session { cpus, faults, ops, expected_docs: self.expected_docs, repo: self.repo.clone(), alt: false, ver: false, ren: false, env: vec![], rand: 0 }
     }
     /// the data and reference of build 0 (this tree), 1 (other data) or 2 (other version)
     pub fn side_b(&self, build: u8) -> (&Shipped, &Reference) {
-        match (build, &self.alt, &self.ver) {
-            (1, Some(a), _) => (&a.shipped, &a.reference),
-            (2, _, Some(v)) => (&v.shipped, &v.reference),
+        match (build, &self.alt, &self.ver, &self.ren) {
+            (1, Some(a), _, _) => (&a.shipped, &a.reference),
+            (2, _, Some(v), _) => (&v.shipped, &v.reference),
+            (3, _, _, Some(r)) => (&r.shipped, &r.reference),
             _ => (&self.shipped, &self.reference),
         }
     }
@@ -201,7 +220,7 @@ impl Ctx {
 /// Replace file references by explicit phrase lists (self-contained replays, phrase shrinking).
 pub fn inline_files(h: &mut History) {
     for s in h.steps.iter_mut() {
-        if let Step::Start { session } = s {
+        if let Step::Start { session } | Step::Contended { session, .. } = s {
             for op in session.ops.iter_mut() {
                 if let Op::Ask { phrases, file, subset, .. } = op {
                     if let Some(f) = file.take() {
@@ -230,7 +249,7 @@ pub fn step_rand(h: &History, i: usize) -> u64 {
 pub fn freeze_rand(h: &mut History) {
     for i in 0..h.steps.len() {
         let r = step_rand(h, i);
-        if let Step::Start { session } = &mut h.steps[i] {
+        if let Step::Start { session } | Step::Contended { session, .. } = &mut h.steps[i] {
             if session.rand == 0 {
                 session.rand = r;
             }
@@ -238,7 +257,42 @@ pub fn freeze_rand(h: &mut History) {
     }
 }
 
+/// Execute a history. A watchdog in a child the harness schedules nothing in is checked by executing
+/// the history a second time: if the same steps hang again, the hang is the code's (see `Trace`).
 pub fn run_history(ctx: &Ctx, h: &History, work: &Path, rotate: usize) -> Trace {
+    let first = run_history_once(ctx, h, work, rotate);
+    if first.hang_steps.is_empty() || first.hang_steps.len() != first.harness_errors.len() {
+        return first;
+    }
+    let mut second = run_history_once(ctx, h, work, rotate);
+    if second.hang_steps == first.hang_steps && second.hang_steps.len() == second.harness_errors.len() {
+        second.harness_errors.clear();
+        second.hangs_confirmed = true;
+    }
+    second
+}
+
+fn plain_session(s: &Session) -> bool {
+    s.faults.is_empty() && s.ops.iter().all(|o| matches!(o, Op::Open { plan, .. } if *plan == Plan::default()) || matches!(o, Op::Ask { .. } | Op::Drop { .. }))
+}
+
+fn judge_hangs(prop: &str, trace: &Trace, out: &mut Vec<Violation>) {
+    if !trace.hangs_confirmed {
+        return;
+    }
+    for &i in &trace.hang_steps {
+        out.push(Violation {
+            property: prop.to_string(),
+            clause: format!("{prop}.hangs"),
+            step: i,
+            detail: format!("step {i} (nothing injected, nothing scheduled by the harness) did not finish within the watchdog in two executions of the history"),
+            focus: vec![],
+            signature: format!("{prop}.hangs"),
+        });
+    }
+}
+
+fn run_history_once(ctx: &Ctx, h: &History, work: &Path, rotate: usize) -> Trace {
     let mut trace = Trace::default();
     let _ = std::fs::remove_dir_all(work);
     if let Err(e) = std::fs::create_dir_all(work) {
@@ -290,7 +344,8 @@ pub fn run_history(ctx: &Ctx, h: &History, work: &Path, rotate: usize) -> Trace 
                 }
                 None
             }
-            Step::Start { session } => {
+            Step::Start { session } | Step::Contended { session, .. } => {
+                let hold_ms = if let Step::Contended { hold_ms, .. } = step { Some(*hold_ms) } else { None };
                 let mut s = session.clone();
                 if s.expected_docs == 0 {
                     s.expected_docs = ctx.expected_docs;
@@ -306,7 +361,14 @@ pub fn run_history(ctx: &Ctx, h: &History, work: &Path, rotate: usize) -> Trace 
                         s.expected_docs = v.shipped.docs();
                         &v.launcher
                     }
-                    _ => &ctx.launcher,
+                    _ => match (&ctx.ren, s.ren) {
+                        (Some(r), true) => {
+                            s.repo = r.repo.clone();
+                            s.expected_docs = r.shipped.docs();
+                            &r.launcher
+                        }
+                        _ => &ctx.launcher,
+                    },
                 };
                 if s.repo.is_empty() {
                     s.repo = ctx.repo.clone();
@@ -314,9 +376,41 @@ pub fn run_history(ctx: &Ctx, h: &History, work: &Path, rotate: usize) -> Trace 
                 if s.rand == 0 {
                     s.rand = step_rand(h, i);
                 }
-                let mut out = launcher.simnode(&xdg, work, &format!("s{i}"), &s, rotate);
+                let mut out = match hold_ms {
+                    None => launcher.simnode(&xdg, work, &format!("s{i}"), &s, rotate),
+                    Some(ms) => {
+                        // the other instance first; this start begins once it holds the lock (or has
+                        // found nothing to hold)
+                        let marker = xdg.root.join(".verif-holding");
+                        let _ = std::fs::remove_file(&marker);
+                        let holder = Session { cpus: 1, faults: vec![], ops: vec![Op::HoldWriter { ms }], expected_docs: 0, repo: s.repo.clone(), alt: false, ver: false, ren: false, env: vec![], rand: 1 };
+                        let (out, held) = std::thread::scope(|sc| {
+                            let hj = sc.spawn(|| ctx.launcher.simnode(&xdg, work, &format!("h{i}"), &holder, rotate));
+                            let t0 = std::time::Instant::now();
+                            while !marker.exists() && !hj.is_finished() && t0.elapsed() < std::time::Duration::from_secs(20) {
+                                std::thread::sleep(std::time::Duration::from_millis(5));
+                            }
+                            let out = launcher.simnode(&xdg, work, &format!("s{i}"), &s, rotate);
+                            let hout = hj.join().unwrap_or_else(|_| ChildOut { exit: Exit::SpawnFailed { why: "holder thread panicked".into() }, events: vec![], stdout: String::new(), stderr: String::new() });
+                            let held = hout.events.iter().any(|e| matches!(e, Event::Held { held: true, .. }));
+                            (out, held)
+                        });
+                        let _ = std::fs::remove_file(&marker);
+                        let mut out = out;
+                        // the held lock "fired" when this start could not do what it set out to do
+                        let failed = out.exit != (Exit::Code { code: 0 }) || builds(&out).iter().any(|b| b.error.is_some());
+                        if held && failed && out.fault_fired().is_none() {
+                            out.events.push(Event::FaultFired { kind: "lock-held".into(), point: "index.writer".into(), k: 0 });
+                        }
+                        out.events.push(Event::Held { held, why: String::new() });
+                        out
+                    }
+                };
                 if let Some(e) = out.harness_error() {
                     trace.harness_errors.push(format!("step {i}: {e}"));
+                    if out.exit == Exit::TimedOut && hold_ms.is_none() && disk_limited.is_none() && plain_session(&s) {
+                        trace.hang_steps.push(i);
+                    }
                 }
                 if let Some(limit) = &disk_limited {
                     // the full disk "fired" when this start could not do what it set out to do
@@ -346,13 +440,17 @@ pub fn run_history(ctx: &Ctx, h: &History, work: &Path, rotate: usize) -> Trace 
                 let out = if *tty && inject.is_none() { ctx.launcher.any_on(&xdg, work, &args, env, step_rand(h, i), true) } else { ctx.launcher.any(&xdg, work, &args, env, inject.as_ref(), step_rand(h, i)) };
                 if let Some(e) = out.harness_error() {
                     trace.harness_errors.push(format!("step {i}: {e}"));
+                    if out.exit == Exit::TimedOut && inject.is_none() {
+                        trace.hang_steps.push(i);
+                    }
                 }
                 Some(out)
             }
         };
         let alt = matches!(step, Step::Start { session } if session.alt) && ctx.alt.is_some();
         let ver = matches!(step, Step::Start { session } if session.ver) && ctx.ver.is_some();
-        let build = if alt { 1 } else if ver { 2 } else { 0 };
+        let ren = matches!(step, Step::Start { session } if session.ren) && ctx.ren.is_some();
+        let build = if alt { 1 } else if ver { 2 } else if ren { 3 } else { 0 };
         let dir = dirstate::inspect(&xdg, ctx.side_b(build).0);
         trace.steps.push(StepOut { dir, child, alt, build });
     }
@@ -384,7 +482,7 @@ pub fn answers(c: &ChildOut, slot: usize) -> Vec<&Answer> {
 
 /// A start counts as disturbed when a kill or a non-retryable failure was actually injected.
 pub fn disturbed(c: &ChildOut) -> bool {
-    matches!(c.fault_fired(), Some((kind, _, _)) if kind == "kill" || kind == "fail" || kind == "sys-kill" || kind == "sys-error" || kind == "disk-full")
+    matches!(c.fault_fired(), Some((kind, _, _)) if kind == "kill" || kind == "fail" || kind == "sys-kill" || kind == "sys-error" || kind == "disk-full" || kind == "lock-held")
 }
 
 fn fmt_res(r: &[Res]) -> String {
@@ -642,9 +740,20 @@ pub fn judge_c15(ctx: &Ctx, h: &History, trace: &Trace) -> Vec<Violation> {
 }
 
 /// C16: every own-words lookup succeeded in every index state the history reached.
-pub fn judge_c16(_ctx: &Ctx, h: &History, trace: &Trace) -> Vec<Violation> {
+pub fn judge_c16(ctx: &Ctx, h: &History, trace: &Trace) -> Vec<Violation> {
     let mut out = Vec::new();
     judge_health("C16", h, trace, &mut out);
+    // the word multisets of the shipped constants: a caller-thread query is judged as "a fact's own
+    // words" only if it is one (the minimiser also shortens phrases; what remains is just a query)
+    let own_sets: std::collections::BTreeSet<Vec<String>> = ctx
+        .shipped
+        .all_tokens()
+        .into_iter()
+        .map(|mut t| {
+            t.sort();
+            t
+        })
+        .collect();
     for (i, so) in trace.steps.iter().enumerate() {
         let Some(c) = &so.child else { continue };
         for e in &c.events {
@@ -681,6 +790,11 @@ pub fn judge_c16(_ctx: &Ctx, h: &History, trace: &Trace) -> Vec<Violation> {
                 let mut bad: Vec<String> = Vec::new();
                 for q in queries {
                     let words: Vec<&str> = q.text.trim_start_matches('{').trim_end_matches('}').split_whitespace().collect();
+                    let mut sorted: Vec<String> = words.iter().map(|w| w.to_string()).collect();
+                    sorted.sort();
+                    if !own_sets.contains(&sorted) {
+                        continue;
+                    }
                     let why = if q.results.len() != 1 {
                         Some(format!("{} results", q.results.len()))
                     } else if let Res::Err { msg, .. } = &q.results[0] {
@@ -1082,6 +1196,12 @@ pub fn judge_c19(ctx: &Ctx, h: &History, trace: &Trace) -> Vec<Violation> {
 }
 
 pub fn judge(ctx: &Ctx, h: &History, trace: &Trace) -> Vec<Violation> {
+    if trace.hangs_confirmed {
+        // what a hung process left behind is not judged further
+        let mut out = Vec::new();
+        judge_hangs(&h.property, trace, &mut out);
+        return out;
+    }
     match h.property.as_str() {
         "C14" => judge_c14(ctx, h, trace),
         "C15" => judge_c15(ctx, h, trace),
